@@ -15,7 +15,7 @@ def check_instance(inst, F, ctx, extra):
         did = True
         tables.check_tables(inst, F, ctx, {'T1'})
     for feature, direction in (('next', 'fwd'), ('next_back', 'bwd')):
-        it = I.assoc_fn(feature)
+        it = I.require_fn(ctx, feature)
         if it is None:
             continue
         did = True
